@@ -53,6 +53,8 @@ def rust(t):
         return "Result<%s, %s>" % (rust(t[1]), rust(t[2]))
     if k == "res1":
         return "Result<%s>" % rust(t[1])
+    if k == "array":        # [T; 3] — outside the C05 enumeration (the README table has no row for it); a constructor context for C07 / C09
+        return "[%s; 3]" % rust(t[1])
     raise ValueError(t)
 
 
@@ -71,6 +73,8 @@ def skeleton(t):
         return {"hmap": "HashMap", "bmap": "BTreeMap", "res": "Result"}[k] + "<" + skeleton(t[1]) + "," + skeleton(t[2]) + ">"
     if k == "tuple":
         return "(" + ",".join(skeleton(x) for x in t[1]) + ")"
+    if k == "array":
+        return "[" + skeleton(t[1]) + ";3]"
     raise ValueError(t)
 
 
@@ -145,7 +149,7 @@ def M(t, result_transparent=True):
         return M(t[1])
     if k == "opt":
         return norm_union([M(t[1]), ("null",)])
-    if k in ("vec", "hset", "bset"):
+    if k in ("vec", "hset", "bset", "array"):
         return ("arr", M(t[1]))
     if k in ("hmap", "bmap"):
         return ("rec", M(t[1]), M(t[2]))
